@@ -116,6 +116,36 @@ def run(rng, tier, res=None):
                 for mm in m1[:2]:
                     res.violations.append({"property": "C01", "what": "classifier left by learn(): " + mm, "replay": meta})
                 res.hit("c01_on_learned_classifier")
+                # C02 on the same classifier: its prototypes are the class-boundary endpoints of an MST of the samples it stores
+                if nn <= 7:
+                    sets_ = O.mst_boundary_sets(nn, lambda a, b: Wm[a][b], [nd.label for nd in nds])
+                    protos_ = frozenset(t for t in range(nn) if nds[t].status == 1)
+                    if sets_ is not None and protos_ not in sets_:
+                        res.violations.append({"property": "C02", "what": f"classifier left by learn(): prototypes {sorted(protos_)} are not the "
+                                               f"class-boundary endpoints of any minimum spanning tree of its own samples", "replay": meta})
+                    res.hit("c02_on_learned_classifier")
+                else:
+                    ws_ = [Wm[a][b] for a in range(nn) for b in range(a + 1, nn)]
+                    if len(set(ws_)) == len(ws_):
+                        # distinct weights: the minimum spanning tree is unique (Kruskal)
+                        par_ = list(range(nn))
+
+                        def find_(x):
+                            while par_[x] != x:
+                                par_[x] = par_[par_[x]]; x = par_[x]
+                            return x
+                        want_p = set()
+                        for wv_, a_, b_ in sorted((Wm[a][b], a, b) for a in range(nn) for b in range(a + 1, nn)):
+                            ra_, rb_ = find_(a_), find_(b_)
+                            if ra_ != rb_:
+                                par_[ra_] = rb_
+                                if nds[a_].label != nds[b_].label:
+                                    want_p |= {a_, b_}
+                        protos_ = {t for t in range(nn) if nds[t].status == 1}
+                        if protos_ != want_p:
+                            res.violations.append({"property": "C02", "what": f"classifier left by learn(): prototypes {sorted(protos_)} != class-boundary "
+                                                   f"endpoints {sorted(want_p)} of the (unique) minimum spanning tree of its own samples", "replay": meta})
+                        res.hit("c02_on_learned_classifier_unique_mst")
         except Exception as ex:
             res.notes.append(f"c01-on-learn oracle skipped: {type(ex).__name__}")
         res.hit("learn_iterations_%d" % len(log)); res.hit("learn_best_not_last" if best != len(log) - 1 else "learn_best_last")
